@@ -126,6 +126,7 @@ def run(tier, seed):
     res.rule = ("for every sampled input x model class: the all-off baseline, all-on, every single flag on / off and seeded random "
                 "flag vectors (thorough: full cross products on a subset); Trace_Groups requires every run of a group to reproduce "
                 "the baseline's solved status and objective; a group is non-trivial when it has >= 2 usable runs")
+    P.attribute_presolve(res, known)
     return res.finish(known, require_classes=["solved", "groups", "runs_with_bound_fixing_enabled"])
 
 
